@@ -62,17 +62,17 @@ def cErrorStrTotal : Input → Trace → Bool
 building one) -/
 def cMismatchBuilt : Input → Trace → Bool
   | .describe m v annotated _, .describe _ matched _ _ _ =>
-    let m' := withMessage annotated m
-    (if predicateSaysNo m' v then matched == .mismatch else true) &&
-    (match Spec.C06.spec m' v with
-     | some .mismatch => !isRaised matched
-     | _ => true)
+    if predicateSaysNo (withMessage annotated m) v then matched == .mismatch else true
   | .describe .., _ => false
   | _, _ => true
 
+/-- the text is a real str / bytes: code points below 0x110000 / bytes below 256 -/
+def validText (isBytes : Bool) (s : List Nat) : Bool :=
+  s.all fun c => if isBytes then decide (c < 256) else decide (c < 1114112)
+
 /-! clause for `text_repr` inputs -/
 def cTextReprRoundTrip : Input → Trace → Bool
-  | .textRepr _ _ _ s, .textRepr _ back _ _ => back == some s
+  | .textRepr b _ _ s, .textRepr _ back _ _ => !validText b s || back == some s
   | .textRepr .., _ => false
   | _, _ => true
 
